@@ -232,3 +232,66 @@ def run_twin(tdgl, args, tmp):
             "A_total[T*m] via units=": np.asarray(sol.vector_potential_at_position(pos, units="T * m", with_units=False)).reshape(-1).tolist(),
         }
     return {"u": u, "frames": frames, "K_A_per_m": phys, "fields": fields, "nsites": len(dev.mesh.sites)}
+
+
+# ------------------------------------------------------------------------------------ history on a shared options object
+
+
+def _phys_outputs(sol, u, np):
+    """Physical outputs of a Solution that was solved in unit system u, brought to SI by the harness.  The `with_units=False`
+    numbers are, by the API, in the units the solution was SOLVED in, and are converted with exactly those."""
+    LU, FU, CU = 10.0 ** u[0], 10.0 ** u[1], 10.0 ** u[2]
+    pos = np.array(FIELD_POINTS_UM) * (1e-6 / LU)
+    inside = np.array([[0.5, 0.3], [-1.0, 0.5], [1.5, -0.7]]) * (1e-6 / LU)
+    fl = lambda a: np.asarray(a, dtype=float).reshape(-1).tolist()
+    o = {
+        "A_total[T*m]": fl(sol.vector_potential_at_position(pos).to("T * m").magnitude),
+        "A_total[T*m] from with_units=False": fl(np.asarray(sol.vector_potential_at_position(pos, with_units=False)) * FU * LU),
+        "A_applied[T*m]": fl(sol.vector_potential_at_position(pos, return_sum=False)["applied"].to("T * m").magnitude),
+        "Bz[T]": fl(sol.field_at_position(pos, vector=False).to("T").magnitude),
+        "Bz[T] from with_units=False": fl(np.asarray(sol.field_at_position(pos, vector=False, with_units=False)) * FU),
+        "Bvec[T]": fl(sol.field_at_position(pos, vector=True).to("T").magnitude),
+        "K[A/m]": fl(sol.current_density.to("A / m").magnitude),
+        "K_interp[A/m]": fl(sol.interp_current_density(inside, with_units=True).to("A / m").magnitude),
+        "K_interp[A/m] from with_units=False": fl(np.asarray(sol.interp_current_density(inside, with_units=False)) * CU / LU),
+    }
+    labels = [FLD_EXP.get(str(sol.field_units), 99), CUR_EXP.get(str(sol.current_units), 99)]
+    return o, labels
+
+
+FLD_EXP = {v: k for k, v in FLD.items()}
+CUR_EXP = {v: k for k, v in CUR.items()}
+
+
+def history_twin(tdgl, args, tmp):
+    """ONE SolverOptions object used for two solves with its unit fields re-assigned in between (um/mT/uA, then nm/uT/nA on the shared
+    mesh); the first solution is observed before and after the edit (also through to_hdf5 + reload), the second once."""
+    import h5py
+    import numpy as np
+
+    u1, u2 = args.get("u1", [-6, -3, -6]), args.get("u2", [-9, -6, -9])
+    kind = args.get("kind", "bar")
+    work = tempfile.mkdtemp(prefix="hist", dir=tmp)
+    dt = args.get("dt", 2.0 ** -6)
+    ln, fu, cu = unit_names(u1)
+    opt = tdgl.SolverOptions(solve_time=args.get("steps", 12) * dt - dt / 2, dt_init=dt, adaptive=False, save_every=4, progress_interval=10 ** 9,
+                             pause_on_interrupt=False, output_file=os.path.join(work, "first.h5"), field_units=fu, current_units=cu)
+    n1 = numbers(u1)
+    sol1 = tdgl.solve(twin_device(tdgl, kind, u1), opt, applied_vector_potential=n1["B"], terminal_currents={"source": n1["I"], "drain": -n1["I"]})
+    runs, labels = {}, {}
+    runs["first solution, before"], labels["first solution, before"] = _phys_outputs(sol1, u1, np)
+    # the SAME options object, re-assigned
+    ln2, fu2, cu2 = unit_names(u2)
+    opt.field_units, opt.current_units, opt.output_file = fu2, cu2, os.path.join(work, "second.h5")
+    n2 = numbers(u2)
+    sol2 = tdgl.solve(twin_device(tdgl, kind, u2), opt, applied_vector_potential=n2["B"], terminal_currents={"source": n2["I"], "drain": -n2["I"]})
+    runs["second solution"], lab2 = _phys_outputs(sol2, u2, np)
+    runs["first solution, after the options object was re-used"], labels["first solution, after the options object was re-used"] = _phys_outputs(sol1, u1, np)
+    saved = os.path.join(work, "first_saved.h5")
+    sol1.to_hdf5(saved)
+    with h5py.File(saved, "r") as f:
+        g = f["solution"]
+        labels["first solution, attributes written by to_hdf5"] = [FLD_EXP.get(str(g.attrs.get("field_units")), 99), CUR_EXP.get(str(g.attrs.get("current_units")), 99)]
+    re1 = tdgl.Solution.from_hdf5(saved)
+    runs["first solution, saved after the edit and reloaded"], labels["first solution, saved after the edit and reloaded"] = _phys_outputs(re1, u1, np)
+    return {"runs": runs, "first_labels": labels, "second_labels": lab2, "expected_first": [u1[1], u1[2]], "expected_second": [u2[1], u2[2]]}
